@@ -2,10 +2,16 @@
 manager_tcp.py), run as a user starts them: as __main__ with a command line and an environment,
 against the simulated device. Only the standard library is touched to observe them (the
 socketserver.TCPServer instances they create are noted so that they can be probed and shut
-down)."""
+down).
+
+The program runs in the calling (main) thread, as it does for a user - code that only works
+there (signal handlers) works, and a program that hangs is interrupted by the runner's per-case
+watchdog with the program's own frames on the stack. A helper thread plays the client: it waits
+for a server to appear, sends one request, and shuts the server down."""
 import logging
 import os
 import runpy
+import signal
 import socket
 import socketserver
 import sys
@@ -18,8 +24,23 @@ from . import mw
 SCRIPTS = {"Ledger": "manager_ledger.py", "SGX": "manager_sgx.py", "TCP": "manager_tcp.py"}
 
 
-def run_manager(platform, argv, env, w, serve_wait_s=5.0, stop_wait_s=0.6, expect_serve=None,
-                talk=None):
+def _ask_version(port):
+    s = socket.create_connection(("127.0.0.1", port), timeout=30)
+    try:
+        s.sendall(b'{"command":"version"}\n')
+        s.shutdown(socket.SHUT_WR)
+        data = b""
+        while True:
+            d = s.recv(65536)
+            if not d:
+                break
+            data += d
+        return data
+    finally:
+        s.close()
+
+
+def run_manager(platform, argv, env, w, talk=None, **_ignored):
     """Starts the manager for `platform` with the command line `argv` and the environment
     variables `env` (added to the process's for the duration), device = world `w`.
     Returns {"served": bool, "reply": bytes or None, "end": how the program ended,
@@ -36,20 +57,39 @@ def run_manager(platform, argv, env, w, serve_wait_s=5.0, stop_wait_s=0.6, expec
     def noting_init(self, *a, **kw):
         real_init(self, *a, **kw)
         created.append(self)
-    res = {"served": False, "reply": None, "end": None, "exit": None}
+    res = {"served": False, "reply": None, "end": None, "exit": None, "client_error": None}
     saved_argv = sys.argv
     saved_env = {k: os.environ.get(k) for k in env}
     saved_reuse = socketserver.TCPServer.allow_reuse_address
-
-    def target():
+    saved_signals = {}
+    for sg in (signal.SIGTERM, signal.SIGINT, signal.SIGHUP):
         try:
-            runpy.run_path(script, run_name="__main__")
-            res["end"] = "returned"
-        except SystemExit as e:
-            res["end"] = "exit"
-            res["exit"] = e.code
-        except BaseException as e:   # noqa
-            res["end"] = "raised:" + type(e).__name__
+            saved_signals[sg] = signal.getsignal(sg)
+        except (ValueError, OSError):
+            pass
+    ended = threading.Event()
+
+    def client():
+        # until the program either serves or ends (no allowance decides between the two)
+        while not ended.is_set():
+            if created:
+                try:
+                    port = created[0].server_address[1]
+                    res["reply"] = talk(port) if talk is not None else _ask_version(port)
+                    res["served"] = mw.parse_reply(res["reply"]) is not None \
+                        if isinstance(res["reply"], bytes) else bool(res["reply"])
+                except OSError as e:
+                    if not ended.is_set():
+                        res["client_error"] = repr(e)
+                        time.sleep(0.01)
+                        continue
+                break
+            time.sleep(0.005)
+        for s in list(created):
+            # (each from a thread of its own: shutdown() waits for a serve_forever() to end,
+            # and a program that made a server without serving on it would keep us waiting)
+            threading.Thread(target=s.shutdown, daemon=True).start()
+    helper = threading.Thread(target=client, daemon=True)
     socketserver.TCPServer.__init__ = noting_init
     sys.argv = [script] + list(argv)
     for k, v in env.items():
@@ -57,47 +97,24 @@ def run_manager(platform, argv, env, w, serve_wait_s=5.0, stop_wait_s=0.6, expec
             os.environ.pop(k, None)
         else:
             os.environ[k] = v
-    t = threading.Thread(target=target, daemon=True)
     try:
-        t.start()
-        wait = serve_wait_s if expect_serve in (True, None) else stop_wait_s
-        deadline = time.time() + wait
-        while time.time() < deadline:
-            if created:
-                try:
-                    port = created[0].server_address[1]
-                    if talk is not None:
-                        res["reply"] = talk(port)
-                    else:
-                        s = socket.create_connection(("127.0.0.1", port), timeout=5)
-                        try:
-                            s.sendall(b'{"command":"version"}\n')
-                            s.shutdown(socket.SHUT_WR)
-                            data = b""
-                            while True:
-                                d = s.recv(65536)
-                                if not d:
-                                    break
-                                data += d
-                        finally:
-                            s.close()
-                        res["reply"] = data
-                    res["served"] = mw.parse_reply(res["reply"]) is not None \
-                        if isinstance(res["reply"], bytes) else bool(res["reply"])
-                    break
-                except OSError:
-                    pass
-            if not t.is_alive():
-                break
-            time.sleep(0.01)
-        for s in created:
-            # (from a thread of its own: shutdown() waits for a serve_forever() to end, and a
-            # program that made a server without ever serving on it would keep us waiting)
-            threading.Thread(target=s.shutdown, daemon=True).start()
-        t.join(timeout=10)
-        if t.is_alive():
-            raise HarnessError("manager program did not end after its server was shut down")
+        helper.start()
+        try:
+            runpy.run_path(script, run_name="__main__")
+            res["end"] = "returned"
+        except SystemExit as e:
+            res["end"] = "exit"
+            res["exit"] = e.code
+        except BaseException as e:   # noqa
+            if type(e).__name__ in ("CaseTimeout", "KeyboardInterrupt"):
+                raise       # the runner's watchdog: the program was still running
+            res["end"] = "raised:" + type(e).__name__
+            res["exception"] = e
+        finally:
+            ended.set()
+        helper.join(timeout=30)
     finally:
+        ended.set()
         socketserver.TCPServer.__init__ = real_init
         socketserver.TCPServer.allow_reuse_address = saved_reuse
         sys.argv = saved_argv
@@ -106,6 +123,16 @@ def run_manager(platform, argv, env, w, serve_wait_s=5.0, stop_wait_s=0.6, expec
                 os.environ.pop(k, None)
             else:
                 os.environ[k] = v
+        for sg, h in saved_signals.items():
+            try:
+                signal.signal(sg, h if h is not None else signal.SIG_DFL)
+            except (ValueError, OSError, TypeError):
+                pass
+        for s in created:
+            try:
+                s.server_close()
+            except Exception:   # noqa
+                pass
         Platform.set(Platform.LEDGER)
         # the programs configure logging for a process of their own
         for lg in list(logging.root.manager.loggerDict.values()):
